@@ -98,6 +98,21 @@ CLAIMED['C03'] = dict(
     technique='contract-based deductive verification: Python ast -> VC generator -> z3 (spec lemmas for bisect); bounded VM sweep for the surround',
     design='3 C03')
 
+CLAIMED['C16'] = dict(
+    text='Unbounded proof over the real source of blocks._split_bytecode (partition: the concatenation of the blocks is the instruction '
+         'list, every block non-empty, every resolved jump target that is an instruction of the code starts a block) and of '
+         'cfg_utils.order_nodes (execution order: starts at the entry, lists no block twice, every later block has a predecessor '
+         'earlier in the list, and the listed set is exactly the set reachable from the entry). The 3.12 async-for/yield-from block '
+         'surgery, opcode construction (indices, next/prev links, target resolution) and the edge construction in compute_order are '
+         'covered only by a bounded sweep: every clause of C16 evaluated on every code object of the CPython 3.12 standard library '
+         'sources through the real pipeline.',
+    note='Trusted: engine/, z3, A-ATTR (opcode/block attributes are stable reads), A-LFP (graph reachability axiomatised as a least fixed '
+         'point), A-LIB (min over a generator returns some element), preconditions: consistent next-links, no SEND/GET_ANEXT under 3.12, '
+         'node list closed under outgoing edges. The final assert of order_nodes (needs the exact closure computed by compute_predecessors) '
+         'is not proved. Unverified surround: opcodes.build_opcodes, add_pop_block_targets, async surgery, compute_order, compute_predecessors.',
+    technique='contract-based deductive verification: Python ast -> VC generator (loop invariants, ghost cut points, least-fixed-point schema) -> z3; bounded native sweep for the surround',
+    design='3 C16')
+
 NOT_APPLICABLE = {
     'C01': 'whole abstract interpreter vs CPython execution: no function-level contract expresses over-approximation of execution (DESIGN 4)',
     'C02': 'decided by matcher.py (2000 lines) on live VM values; the inhabitant oracle quantifies over programs, not one call (DESIGN 4)',
